@@ -32,6 +32,20 @@ CHECKS['C15'] = dict(
     technique='Lean 4 proof (induction over the character list) + correspondence on captured line lists + CLI runs',
     ref='DESIGN.md section 5, C15')
 
+CHECKS['C08'] = dict(
+    text='Lean 4 theorems for EVERY token tree (not only parser output), every attribute string and all option sets: '
+         'the HTML renderer model emits an event list that is properly nested, uses only the fixed tag vocabulary and '
+         'attribute names, has attribute values free of quote/angle characters and text with &,<,> only in escaped '
+         'form; the raw leaves are exactly the HtmlBlock/HtmlSpan contents in order, and there are none when the tree '
+         'has no HTML token. The escaping helpers are per-character maps whose ASCII tables are re-probed from /repo '
+         'on every run, so a dropped or reordered escape breaks a `decide` obligation. The renderer model is tied to '
+         'the code byte-for-byte on parser ASTs and on hostile edited ASTs under all 8 option sets.',
+    note='Trusted: Lean kernel (axioms propext/Classical.choice/Quot.sound at most); table extraction and the '
+         'correspondence harness; htmlcheck.py as executable reading of the predicate on implementation output; '
+         'hypothesis levelsOks (heading level 1..6). Pygments output is outside the model.',
+    technique='Lean 4 proof (structural induction over the token tree; decide over regenerated escape tables) + byte-exact renderer correspondence',
+    ref='DESIGN.md section 5, C08')
+
 NOT_YET = {}
 
 
